@@ -112,6 +112,48 @@ def run(ctx, replay=None):
             corr('ini', '%s: impl=%s model=%s' % (op[:300], a[:300], m[:300]))
     ctx.sample({'ini-doc': spec_ops[min(7, len(spec_ops) - 1)], 'impl': il[0] if il else ''})
 
+    # ------------------------------------------------------------------ INI: a reference inside the braces of another one (the name of the
+    # outer reference is itself computed: documented as "innermost first").  The expectation is the specification's answer for the same document
+    # with the inner reference written out, so the judgement is implementation vs specification, not implementation vs model.
+    EP = lambda k, pieces: ('E', b'', k, b'', b'', b'', pieces)
+    nest = [
+        ([E1(b'mode', b'dev'), E1(b'dir_dev', b'/d'), EP(b'p', [('R', b'dir_dev'), ('L', b'/data')])], [(b'${dir_dev}', b'${dir_${mode}}')]),
+        ([E1(b'mode', b'dev'), E1(b'dir_dev', b'/d'), EP(b'p', [('L', b'pre'), ('R', b'dir_dev'), ('L', b'mid'), ('R', b'dir_dev'), ('L', b'post')])],
+         [(b'${dir_dev}', b'${dir_${mode}}')]),
+        ([E1(b'a', b'1'), E1(b'k1', b'2'), E1(b'k2', b'z'), EP(b'x', [('R', b'k2'), ('L', b'!')])], [(b'${k2}', b'${k${k${a}}}')]),
+        ([E1(b'kk', b'k'), ('S', b'', b'', b's', b'', b''), E1(b'k', b'7'), ('S', b'', b'', b'', b'', b''), EP(b'x', [('L', b'<'), ('R', b's.k'), ('L', b'>')])],
+         [(b'${s.k}', b'${s.${kk}}')]),
+        ([E1(b'n', b'OME'), EP(b'x', [('V', b'HOME'), ('L', b'/y')])], [(b'${%HOME}', b'${%H${n}}')]),
+        ([E1(b'mode', b'dev'), E1(b'dir_dev', b'/d'), E1(b'mode', b'prod'), E1(b'dir_prod', b'/p'), EP(b'p', [('R', b'dir_prod'), ('R', b'mode')])],
+         [(b'${dir_prod}', b'${dir_${mode}}')]),
+    ]
+    nsl, err = run_model(ctx, env_ops() + [enc_ini_doc(61, False, d) for d, _ in nest])
+    nsl = nsl[len(ENV_SET):]
+    nops, nexp = [], []
+    for (d, reps), l in zip(nest, nsl):
+        if ' ' not in l or not l.startswith('wf '):
+            continue
+        wf, text, e = l.split(' ', 2)
+        t = unhex(text)
+        for a_, b_ in reps:
+            if a_ not in t:
+                t = None
+                break
+            t = t.replace(a_, b_)
+        if t is None:
+            continue
+        nops.append('ini 61 ' + hx(t)); nexp.append(e)
+    il, ml, err = both_conf(ctx, exe, env_ops() + nops)
+    il = il[len(ENV_SET):]
+    for k, op in enumerate(nops):
+        a = il[k] if k < len(il) else 'MISSING'
+        ctx.cov['evaluations'] += 1
+        ctx.count('ini-nested-reference')
+        if a.rstrip() != nexp[k].rstrip():
+            kind = 'crash-or-timeout' if a in BAD else 'entries-differ'
+            ctx.report('impl-vs-spec', {'op': 'ini', 'observed': kind}, 'INI parser: a reference nested in another one is not replaced innermost first (%s)' % kind,
+                       {'ops': env_ops() + [op], 'expected': nexp[k], 'actual': a})
+
     # ------------------------------------------------------------------ INI: malformed / hostile text, impl vs model only
     mal = [unhex(o.split(' ', 2)[2]) for o in ops[:400 if quick else 40000] if o.startswith('ini ')]
     mops = ['ini 61 ' + hx(mutate(rng, t, INI_SIG)) for t in mal] + ['ini 61 ' + hx(t) for t in INI_HOSTILE]
@@ -147,6 +189,16 @@ def run(ctx, replay=None):
         for _ in range(depth):
             nodes = [('S', b'', b'', [(b'', 'b', b'Sec')], nodes, b'', b'Sec', b'')]
         cases.append((0, 0, t1, nodes))
+    # directed: directive lines as long as the line buffer takes in one read (4095 characters) and a few shorter, followed by more directives
+    fullline = set()      # cases with a line of exactly 4095 characters: see below
+    for T in (1000, 4000, 4090, 4091, 4092, 4093, 4094, 4095):
+        for style in ('b', 'd0'):
+            if T == 4095:
+                fullline.update([len(cases), len(cases) + 1])
+            L = T - len(b'Protocols ') - (2 if style == 'd0' else 0)
+            cases.append((0, 0, t0, [('D', b'', b'', [(b'', 'b', b'Protocols'), (b' ', style, b'x' * (L - 1) + b'Z')]), ('D', b'', b'', [(b'', 'b', b'Listen'), (b' ', 'b', b'53')])]))
+            cases.append((0, 0, t0, [('D', b'', b'', [(b'', 'b', b'Protocols'), (b' ', 'b', b'ab')] + [(b' ', style, b'y' * ((L - 4) // 2)), (b' ', 'b', b'w' * (L - 4 - (L - 4) // 2))]),
+                                     ('D', b'', b'', [(b'', 'b', b'Listen'), (b' ', 'b', b'53')])]))
     # directed: an unregistered (ignored / default-handled) section after a registered sibling: scopes inside it
     def sect(name, arg, body):
         return ('S', b'', b'', [(b'', 'b', name)] + ([(b' ', 'b', arg)] if arg else []), body, b'', name, b'')
@@ -173,7 +225,11 @@ def run(ctx, replay=None):
             continue
         wf, text, e = sl[i].split(' ', 2)
         ctx.count('aconf-generated:' + wf)
-        if wf == 'nwf':           # outside the hypotheses of C20_aconf_accepts_iff: a generator slip, not evidence of anything
+        if wf == 'nwf' and i in fullline and not e.startswith('-1'):
+            # a line of exactly 4095 characters: the theorem's premise wants the newline in the buffer too, but fgets() hands the newline
+            # over as a line of its own, which is blank and ignored - the callbacks are those the specification lists (search input)
+            ctx.count('aconf-generated:full-line')
+        elif wf == 'nwf':         # outside the hypotheses of C20_aconf_accepts_iff: a generator slip, not evidence of anything
             continue
         # one case in five: the same parser object parses the same file twice and the second run is the one compared
         ops.append('%s %d %d %s %s' % ('acr' if i % 5 == 3 else 'ac', c[0], c[1], enc_table(c[2]), text)); exp.append((i, e))
